@@ -2029,6 +2029,8 @@ seq_t dtw_warping_paths_affinity_ndim(seq_t *wps,
     seq_t dtw_prev;
 
     DTWWps p = dtw_wps_parts(l1, l2, settings);
+    // Affinities are not squared: the penalty applies as given (dtw_wps_parts squares it for DTW).
+    p.penalty = settings->penalty;
 
     idx_t ri, ci, min_ci, max_ci, wpsi, wpsi_start;
 
@@ -2364,6 +2366,8 @@ seq_t dtw_warping_paths_affinity_ndim_euclidean(seq_t *wps,
     seq_t dtw_prev;
 
     DTWWps p = dtw_wps_parts(l1, l2, settings);
+    // Affinities are not squared: the penalty applies as given (dtw_wps_parts squares it for DTW).
+    p.penalty = settings->penalty;
 
     idx_t ri, ci, min_ci, max_ci, wpsi, wpsi_start;
 
@@ -3711,6 +3715,8 @@ idx_t dtw_best_path_affinity(seq_t *wps, idx_t *i1, idx_t *i2, idx_t l1, idx_t l
                     idx_t rs, idx_t cs,
                     DTWSettings *settings) {
     DTWWps p = dtw_wps_parts(l1, l2, settings);
+    // Affinities are not squared: the penalty applies as given (dtw_wps_parts squares it for DTW).
+    p.penalty = settings->penalty;
 
     idx_t i = 0;
     idx_t rip = rs;
